@@ -97,6 +97,7 @@ fn main() {
             samename::same_name_cases(&mut g, &mut out);
         }
         if prop == "C17" {
+            samename::same_name_with_schema(&mut g, &mut out);
             for run in catalogue::schema_perturbed() {
                 run(&mut g, &mut out);
             }
@@ -122,6 +123,16 @@ fn main() {
     }
     if prop == "C05" || prop == "C01" {
         ops::large_bytes(&mut g, thorough, &mut out);
+    }
+    if prop == "C05" || prop == "C17" {
+        for run in catalogue::schema_framing() {
+            for _ in 0..(if thorough { 6 } else { 2 }) {
+                run(&mut g, &mut out);
+            }
+        }
+    }
+    if prop == "C07" || prop == "C17" {
+        schema_ops::with_schema_hostile(&mut out);
     }
     if prop == "C05" {
         ops::c05_streams(&cat, &mut g, if thorough { 20000 } else { 1500 }, &mut out);
